@@ -222,6 +222,9 @@ func (t trace) String() string {
 
 // runProbe executes one probe against a fresh factory and returns the trace
 // the prober can observe.
+// busyUnavailable: the last runProbe could not set up the busy-bridge probe.
+var busyUnavailable bool
+
 func runProbe(c *mc.Ctx, br *o4h.Bridge, sf base.ServerFactory, blob []byte, d delivery, pre []byte, pre2 []byte) trace {
 	var tr trace
 	tr.leftAt = -1
@@ -233,6 +236,12 @@ func runProbe(c *mc.Ctx, br *o4h.Bridge, sf base.ServerFactory, blob []byte, d d
 		if pre2 != nil {
 			// busy bridge: 102399 other handshakes are being remembered
 			f := obfs4.VerifReplayFilter(sf)
+			if f == nil {
+				// (the factory's filter is not reachable the way the accessor knows:
+				// the busy-bridge probe cannot be set up)
+				busyUnavailable = true
+				return
+			}
 			var v [16]byte
 			for i := 0; i < 102400-1; i++ {
 				binary.BigEndian.PutUint64(v[:], uint64(i)+1)
@@ -383,7 +392,12 @@ func main() {
 									continue
 								}
 							}
+							busyUnavailable = false
 							tr = runProbe(c, br, sf, blob, d, pre, pre2)
+							if busyUnavailable {
+								c.Count("busy_bridge_probes_not_set_up", 1)
+								continue
+							}
 							c.Count("probes", 1)
 							c.AddExecutions(1)
 							if tr.panics != "" {
